@@ -168,6 +168,10 @@ deriving instance Repr for Desc, Flds, Alts
 instance : Inhabited Val := ⟨.none⟩
 instance : Inhabited Desc := ⟨.nat⟩
 
+def Val.isNone : Val → Bool
+  | .none => true
+  | _ => false
+
 def Vals.length : Vals → Nat
   | .nil => 0
   | .cons _ vs => vs.length + 1
@@ -306,7 +310,7 @@ def wtFlds : Flds → Env → Vals → Bool
   | .fld t rest, env, .cons v vs => wt t env v && wtFlds rest env vs
   | .opt m bit t rest, env, .cons v vs =>
     if bitSet env m bit then wt t env v && wtFlds rest env vs
-    else (match v with | .none => true | _ => false) && wtFlds rest env vs
+    else v.isNone && wtFlds rest env vs
   | _, _, _ => false
 /-- the i-th alternative exists, its tag fits 32 bits and differs from every earlier tag (the reader takes the first match) -/
 def wtAlt : Alts → Env → Nat → Val → Bool
